@@ -234,6 +234,22 @@ def rule_e(ctx):
             ctx.check(ok, 'e', 'reset_releases_unacked_remainder', r, w.where(), D.render(v)[:140], 'unexpected release expression: ' + D.render(v)[:200])
 
 
+def rule_g(ctx):
+    """SendBuffer::unacked() = buffered-but-unacknowledged length minus ranges acknowledged out of order; reset() refunds
+    exactly this (the out-of-order acked ranges were already refunded by received_ack_of)."""
+    F = ctx.facts
+    un = ctx.pfn('SendBuffer::unacked')
+    rd = [x for _, x in ret_descs(F, un)]
+    ok = len(rd) == 1 and rd[0][0] == 'bin' and rd[0][1] == 'Sub' and D.has_field(rd[0][2], 'unacked_len') and not D.calls_in(rd[0][2]) - {'<u64 as From>::from'} \
+        and D.has_field(rd[0][3], 'acks') and D.has_call(rd[0][3], 'Iterator::sum')
+    ctx.check(ok, 'g', 'unacked_excludes_acked_ranges', un, un.where(), D.render(rd[0])[:160] if rd else '-',
+              'SendBuffer::unacked() is no longer unacked_len - sum(len of out-of-order acked ranges): ' + (D.render(rd[0])[:200] if rd else 'no return'))
+    cl = [b for b in F.code_bodies('quinn_proto') if b.kind == 'closure' and F.root_of(b).id == un.id]
+    okc = any(x[0] == 'bin' and x[1] == 'Sub' and D.has_field(x[2], 'end') and D.has_field(x[3], 'start') for b in cl for _, x in ret_descs(F, b))
+    ctx.check(okc, 'g', 'acked_range_length', un, un.where(), '|x| x.end - x.start', 'the summed quantity is not the range length end - start')
+    who_may_call(ctx, 'g', 'unacked_callers', ['SendBuffer::unacked'], ['SendStream::reset'], floor=1)
+
+
 def rule_f(ctx):
     F = ctx.facts
     # StreamMeta::encode (STREAM frame header) only from write_stream_frames; data appended from SendBuffer::get over the polled range
@@ -260,6 +276,7 @@ def rule_f(ctx):
 
 
 def run(ctx):
+    rule_g(ctx)
     rule_a(ctx)
     rule_b(ctx)
     rule_c(ctx)
